@@ -11,6 +11,7 @@ import (
 	"net/url"
 	"path/filepath"
 	"runtime"
+	"runtime/debug"
 	"strings"
 	"time"
 	"unsafe"
@@ -172,8 +173,15 @@ func vEngine() bool                  { return false }
 func vEqStr(a, b string) bool        { return a == b }
 func vGhostSettle()                  { time.Sleep(20 * time.Millisecond) }
 func vGhostPoolMode(mode int)        {}
-func vGhostExplore(preempt int)      {}
-func vGhostExploreOff()              {}
+
+// vGhostPoolDeterministic (native replay): one P and no garbage collection from here on, so that sync.Pool hands the
+// object that was just put to the next Get, whichever goroutine asks - what the engine's pool model (mode 0) explores.
+func vGhostPoolDeterministic() {
+	debug.SetGCPercent(-1)
+	runtime.GOMAXPROCS(1)
+}
+func vGhostExplore(preempt int) {}
+func vGhostExploreOff()         {}
 
 // vGhostExploreAtomics(preempt): exploration mode with scheduling points only before and after sync/atomic operations
 // (and where goroutines block): the windows of check-then-act code around an atomic flag, at a fraction of the schedules.
@@ -181,11 +189,12 @@ func vGhostExploreAtomics(preempt int) {}
 
 // vGhostTimeSlip(ns): in exploration mode a timer that is due within ns may fire at any scheduling point.
 func vGhostTimeSlip(ns int64) {}
+
 // vGhostFmtDigits(true): the engine forks on the digit count of symbolic integers rendered by fmt (exact text lengths).
 func vGhostFmtDigits(on bool) {}
 
-func vGhostAllocReset()              { runtime.ReadMemStats(&vMemBefore) }
-func vGhostTrackAllocs()             {}
+func vGhostAllocReset()  { runtime.ReadMemStats(&vMemBefore) }
+func vGhostTrackAllocs() {}
 
 // vGhostAllocGuard: from now on a library allocation whose size is chosen by symbolic input and can exceed bound is
 // reported at once as a violation of obligation id (natively the obligation is checked through runtime.MemStats).
